@@ -1080,6 +1080,8 @@ func calculateStaticReturn(expr string, ls, rs Source, op promParser.ItemType, i
 		return math.Mod(ls.ReturnedNumber, rs.ReturnedNumber), isDead, "", ls.IsDeadPosition
 	case promParser.POW:
 		return math.Pow(ls.ReturnedNumber, rs.ReturnedNumber), isDead, "", ls.IsDeadPosition
+	case promParser.ATAN2:
+		return math.Atan2(ls.ReturnedNumber, rs.ReturnedNumber), isDead, "", ls.IsDeadPosition
 	}
 	return ls.ReturnedNumber, isDead, "", ls.IsDeadPosition
 }
